@@ -20,7 +20,8 @@ for d in sorted(glob.glob("/verif/seeded/*/"), key=key):
     elif c.get("caught"):
         res = "caught"
     else:
-        res = "not by this check" if "_via" not in name and any(os.path.isdir(f"/verif/seeded/{name}_via{x}") for x in ("C04", "C11", "C15", "X03", "X05")) else "MISSED"
+        via = [os.path.basename(x.rstrip("/")).split("_via")[1] for x in glob.glob(f"/verif/seeded/{name}_via*/") if json.load(open(x + "meta.json")).get("check", {}).get("caught")]
+        res = ("not by this check; caught by " + ", ".join(via)) if "_via" not in name and via else "MISSED"
     sig = ""
     fv = c.get("first_violations") or []
     if fv and "#" in fv[0]:
@@ -37,5 +38,5 @@ n = len(rows)
 print()
 print(f"{n} entries; {sum(1 for r in rows if r[5] == 'caught')} caught by the check run, "
       f"{sum(1 for r in rows if r[5].startswith('neutralised'))} neutralised by later fixes in /repo, "
-      f"{sum(1 for r in rows if r[5] == 'not by this check')} decided by another property's check (see the `_via` entry), "
+      f"{sum(1 for r in rows if r[5].startswith('not by this check'))} decided by another property's check (see the `_via` entry), "
       f"{sum(1 for r in rows if r[5] == 'MISSED')} missed.")
